@@ -4,20 +4,22 @@ import json, sys
 sys.path.insert(0, '/verif/mirsym')
 
 CLAIMED = {
- 'C01': ('block-level conservation: every input block/token appears exactly once, in order, in the same container and kind, in the projected '
-         'GraphBlocks, for every block sequence within the bounds', '3 C01'),
+ 'C01': ('conservation at event, block and text-layout level: every input block/token appears exactly once, in order, in the same container and kind, in the projected '
+         'GraphBlocks, for every block sequence within the bounds; the text the real writer emits for a block tree reads back (reference reader, validated against the real one) as that tree, '
+         'ordered-list item numbers symbolic', '3 C01'),
  'C02': ('format(format(x)) == format(x) as text, decided by executing the real builder, projector and writer twice from MIR with a reference reader '
          '(CommonMark block structure, validated against the real reader) in between; symbolic heading depths and ordered-list item numbers; '
          'block-structured notes of one-word texts (inline escaping, tables\' own text and front matter are outside)', '3 C02'),
- 'C03': ('panic-freedom of blocks -> graph -> tree -> projection: every reachable panic edge of the real MIR within the bounds is reported', '3 C03'),
+ 'C03': ('panic-freedom of blocks -> graph -> tree -> projection -> Markdown text, of the library operations (import, update, lookups at a symbolic line, search paths) and of Document::link_at: '
+         'every reachable panic edge of the real MIR within the bounds is reported', '3 C03'),
  'C04': ('incremental == fresh at Graph level: after every update_key step of every history within the bounds, all observations equal those of a from-scratch import of the current documents (parser stubbed)', '3 C04'),
  'C05': ('backlink index == independent scan of the documents, for block and inline links, on fresh and incrementally updated graphs', '3 C05'),
  'C06': ('title-refresh decision kernel: kind kept, destination kept, title of the note the link resolves to, for every link kind / position / url form / directory pair in the table', '3 C06'),
  'C07': ('outline laws with symbolic heading levels: order kept, emitted outline well nested, well-nested input keeps identical levels, '
-         'blocks stay under the nearest preceding heading / same list item / quote', '3 C07'),
+         'blocks stay under the nearest preceding heading / same list item / quote; the written text keeps the nesting (writer executed, read back)', '3 C07'),
  'C08': ('rename through the real handle_rename at tree level: refused onto an existing note; old name deleted and new name created exactly once; exactly the linking notes and the new note are written; no link to the old name remains, every such link now points to the new name, all other links and all text kept', '3 C08'),
  'C09': ('extract / inline code actions at tree level: text conserved exactly once across the edited notes, fresh distinct names, one titled reference per extracted section, inlined note deleted and its links re-relativised, for every node x provider within the bounds', '3 C09'),
- 'C10': ('list/section conversions at tree level: only the note is rewritten, every word and link kept in order, only the targeted list changes type', '3 C10'),
+ 'C10': ('list/section conversions at tree level: only the note is rewritten, every word and link kept in order, only the targeted list changes type; the text written for the result keeps every block and the nesting', '3 C10'),
  'C11': ('sessions of the message loop through the real Router::handle_message: 1-2 edit notifications each meeting 0..3 request workers whose still-running flags are symbolic (fairness: workers terminate), symbolic edit versions: every didChange / didSave is applied, the idle state is the last text sent, other notifications change nothing', '3 C11'),
  'C12': ('handler -> liwe boundary for code actions: no panic edge reachable in action()/changes() for any node x provider, every offered action resolves', '3 C12'),
  'C13': ('offset -> line/column kernels: to_line_range / to_inline_range for every sorted line table and byte range (symbolic 64-bit), line_starts for every line structure with LF / CRLF terminators and symbolic line lengths', '3 C13'),
